@@ -738,15 +738,42 @@ fn judge_ok(
     };
     // which attributes each entry's modlist named
     let mut named: BTreeMap<Option<Uuid>, BTreeSet<String>> = BTreeMap::new();
+    // classes the request itself asked to add / remove, per entry (plugins also edit `class`: the
+    // membership plugin adds `memberof`, the base plugin restores `object`; those are not the user's)
+    let mut cls_req: BTreeMap<Option<Uuid>, (BTreeSet<String>, BTreeSet<String>, bool)> = BTreeMap::new();
+    let class_req = |ms: &Vec<ModSpec>| -> (BTreeSet<String>, BTreeSet<String>, bool) {
+        let mut add = BTreeSet::new();
+        let mut rem = BTreeSet::new();
+        let mut wipe = false;
+        for m in ms.iter().filter(|m| m.attr == "class") {
+            match m.kind {
+                "present" => {
+                    add.extend(m.val.iter().map(|v| v.to_lowercase()));
+                }
+                "removed" => {
+                    rem.extend(m.val.iter().map(|v| v.to_lowercase()));
+                }
+                "set" => {
+                    add.extend(m.val.iter().map(|v| v.to_lowercase()));
+                    wipe = true;
+                }
+                "purged" => wipe = true,
+                _ => {}
+            }
+        }
+        (add, rem, wipe)
+    };
     let mut purged_class = false;
     match &p.op {
         Op::Modify { mods, .. } => {
             named.insert(None, mods.iter().map(|m| m.attr.clone()).collect());
+            cls_req.insert(None, class_req(mods));
             purged_class = mods.iter().any(|m| m.kind == "purged" && m.attr == "class");
         }
         Op::Batch { mods } => {
             for (u, ms) in mods {
                 named.insert(Some(*u), ms.iter().map(|m| m.attr.clone()).collect());
+                cls_req.insert(Some(*u), class_req(ms));
                 purged_class |= ms.iter().any(|m| m.kind == "purged" && m.attr == "class");
             }
         }
@@ -819,8 +846,18 @@ fn judge_ok(
                     };
                     match (pset, qset) {
                         (Some(ps), Some(qs)) => {
-                            let added: Vec<&String> = qs.difference(&ps).collect();
-                            let removed: Vec<&String> = ps.difference(&qs).collect();
+                            let mut added: Vec<&String> = qs.difference(&ps).collect();
+                            let mut removed: Vec<&String> = ps.difference(&qs).collect();
+                            if a == "class" {
+                                // only the class changes the request asked for are the user's doing
+                                let (radd, rrem, wipe) = cls_req.get(&Some(*u)).or_else(|| cls_req.get(&None)).cloned().unwrap_or_default();
+                                let before = (added.len(), removed.len());
+                                added.retain(|c| radd.contains(&c.to_lowercase()));
+                                removed.retain(|c| wipe || rrem.contains(&c.to_lowercase()));
+                                if before != (added.len(), removed.len()) {
+                                    acc.count("modify.class_changes_by_plugins(not judged)");
+                                }
+                            }
                             if !added.is_empty() && !g.pres.contains(a) {
                                 out.add("c24/modify-added-values-without-present-grant", base(witness("values were added", g)));
                             }
